@@ -78,8 +78,11 @@ func printResult(res *HarnessResult) {
 	for _, e := range s.ErrSamples {
 		fmt.Println("  ERR:", e)
 	}
+	for _, e := range s.PanicSamples {
+		fmt.Println("  PANIC-IN-RUN:", e)
+	}
 	for i, v := range res.Violations {
-		if i >= 5 {
+		if i >= 300 {
 			break
 		}
 		b, _ := json.Marshal(v.Inputs)
